@@ -5,12 +5,17 @@ open Jomini.Props.C01
 #print axioms C01_quote_blocks
 #print axioms C01_skipws
 #print axioms C01_bom
+#print axioms C01_parse_total
 #print axioms C01_step_blank_partial
 #print axioms C01_step_blank_key_open
 #print axioms C01_step_blank_parseopen_open
 #print axioms C01_faithful_flat_partial
 #print axioms C01_faithful_flat_positions_partial
 #print axioms C01_layout_independent_flat_partial
+#print axioms C01_faithful_nested_partial
+#print axioms C01_layout_independent_nested_partial
+#print axioms C01_faithful_tree_partial
+#print axioms C01_layout_independent_tree_partial
 #print axioms C01_C06_text_checker_sound
 #print axioms C01_C06_text_inv
 #print axioms C01_C19_quote_not_extended
